@@ -78,6 +78,10 @@ CLAIMED = {
    technique="the C08 deviation-bounded enumeration plus size-field deviations, each in-scope decode monitored for wall time and bytes allocated (stage 1), exceeders re-run alone 5x in fresh processes with a 100 us heap sampler under RLIMIT_AS (stage 2)",
    text="Same seeds, deviations and 22 entry points as C08 plus every 16/32-bit extent field, sub-sampling byte, segment length and Psot set to boundary values; RLE with the full FrameInfo lattice. An independent SOF/SIZ reader puts inputs declaring more than 2^22 samples (or frames above it) out of scope (counted). In scope: wall time <= 10 s and allocated bytes <= 512 MiB + 64*S; only a case that exceeds in all 5 solitary re-runs (peak live heap sampled every 100 us) is a violation; a fatal out-of-memory abort is one too. At most 8 workers.",
    note="Observes executions; it does not bound the decoders' complexity. Time is measured under load, so stage 2 exists to remove load-induced exceeders. max wall and max allocation seen are in the evidence stats."),
+ "C17": dict(engine="E1 over argument tuples in sandboxed workers", design="§4 C17",
+   technique="bounded-exhaustive enumeration of argument tuples (boundary sets for width, height, components, bit depth, codec parameter, buffer length; FrameInfo x parameter-object x frame-count lattice at codec level) through every package-level Encode and every registered Codec.Encode, in sandboxed worker processes",
+   text="~900 k argument tuples: width, height in {-1,0,1,2,255,256,32767,32768,65535,65536,65537} x components {-1..5} x bit depth {-1,0,1,2,7,8,9,12,15,16,17,32} x quality/predictor/NEAR/levels/code-block boundary sets x buffer length {0,1,first row,need-1,need,need+1}; line-shaped requests get real buffers up to 65537 samples so every 16-bit size field boundary is crossed. Codec level: 14 syntaxes x FrameInfo lattice (incl. zeros and mismatches) x {nil, default, foreign implementation, out-of-range generic} parameters x {1, 2, 0 frames, empty frame, nil FrameInfo}. Oracle: no panic or process abort; a returned stream is accepted by the matching decoder with exactly the requested width, height, components, precision; package level: an unrepresentable request is not answered with a stream.",
+   note="Full-size buffers are capped (2^14 bytes quick, 2^18 thorough; 2^20 for line-shaped requests); above the cap only short-buffer variants run. At codec level parameter objects that clamp out-of-range values are not judged (the statement's error requirement is applied to package-level functions, which have no clamping). One known finding (NEAR above MAXVAL/2 accepted)."),
 }
 NOT_APPLICABLE = {}
 
